@@ -623,6 +623,68 @@ def context_probe(T, V, tree):
     return None
 
 
+def public_name_probe(T, V, res):
+    """every public class of luqum.tree is dispatched under its PUBLIC name: a visitor whose only handler is
+    visit_<snake case of the name by which luqum.tree exports the class> gets every instance of that class"""
+    samples = sample_nodes(T)
+    for k in CLASS_NAMES + ABSTRACT_NAMES:
+        cls = getattr(T, k)
+        hname = "visit_" + V.camel_to_lower(k)
+        for cname, node in samples.items():
+            if not isinstance(node, cls):
+                continue
+            got = []
+
+            def handler(self, nd, context, got=got):
+                got.append(nd)
+                return iter(())
+            probe = type("OnlyOne", (V.TreeVisitor,), {hname: handler})()
+            try:
+                probe.visit(node)
+            except Exception as e:  # noqa
+                got.append(e)
+            if len(got) != 1 or got[0] is not node:
+                res.failures.append(({"kind": "dispatch by public class name",
+                                      "why": "a visitor defining only %s was not given the %s node %r (luqum.tree.%s "
+                                             "is a class named %r)" % (hname, cname, node, k, cls.__name__),
+                                      "history": ["visit(%r) with a TreeVisitor subclass whose only handler is %s"
+                                                  % (node, hname)]}, None))
+                break
+
+
+def dropping_probe(T, V, tree):
+    """handlers may yield no node or several: the path given to the handlers of the FOLLOWING siblings is still
+    their index path in the tree being visited"""
+    seen = []
+
+    class Probe(V.PathTrackingTransformer):
+        def generic_visit(self, node, context):
+            path = tuple(context.get("path", ()))
+            parents = context.get("parents", ())
+            seen.append((node, path))
+            if parents and isinstance(parents[-1], T.BaseOperation) and len(parents[-1].operands) >= 3:
+                if path[-1] == 0:
+                    return                         # the first operand is dropped
+                if path[-1] == 1:
+                    yield from super().generic_visit(node, context)      # the second one is given twice
+            yield from super().generic_visit(node, context)
+    try:
+        Probe(track_parents=True).visit(tree)
+    except Exception as e:  # noqa
+        return "transformer whose handlers drop / repeat operands raised %r" % (e,)
+    for node, path in seen:
+        n = tree
+        try:
+            for i in path:
+                n = n.children[i]
+        except Exception:  # noqa
+            return "path %r given to a handler does not exist in the visited tree" % (path,)
+        if n is not node:
+            return ("with handlers that drop the first and repeat the second operand of an operation, the path %r "
+                    "given to the handler does not lead to the node it was given" % (path,))
+    return None
+
+
 def copies(T, V, r, n, res, stats):
     g = gentree.Gen(r, T, layout=0.5, odd=0.15, positions=0.4)
     w = T.Word("s", tail=" ")
@@ -676,8 +738,8 @@ def copies(T, V, r, n, res, stats):
             steps.append("%s transformer copies %s" % (kind, desc[:300]))
             # the transformer's own context options: with track_parents / track_new_parents a handler is told the
             # true chain of ancestors of the node in the INPUT and the chain of their COPIES in the output
-            if idx % 3 == 0:
-                why_ctx = context_probe(T, V, tree)
+            if idx % 3 == 0 or idx < len(corpus):
+                why_ctx = context_probe(T, V, tree) or dropping_probe(T, V, tree)
                 if why_ctx:
                     res.failures.append(({"kind": "transformer context", "why": why_ctx, "history": list(steps),
                                           "tree_now": desc}, None))
@@ -722,8 +784,7 @@ def correspond(model_ok, res):
     quick = lib.tier() == "quick"
     names = [V.camel_to_lower(k) for k in CLASS_NAMES + ABSTRACT_NAMES + ["object"]]
     assert len(set(names)) == len(names), "camel_to_lower is not injective on the class names"
-    for k in CLASS_NAMES + ABSTRACT_NAMES:
-        assert getattr(T, k).__name__ == k
+    public_name_probe(T, V, res)
     stats = {"classes": {}, "events": 0, "handlers": 0, "abstract_handlers": 0, "cache_hits": 0,
              "transformers": {}, "prefixes": {}, "in_place_edits": 0, "shared_trees": 0}
     hc, hp, lc, lp, nontrivial = histories(T, V, r, 120 if quick else 1200, res, stats)
